@@ -48,6 +48,9 @@ COMMANDS = [
     ['explain'], ['explain', '--format', 'json', 'Netflix'], ['explain', '--amount', '12.5', 'SOME NEW MERCHANT XYZ'], ['explain', '--format', 'markdown', '-v', 'Netflix'],
     ['discover'], ['discover', '--format', 'json'], ['discover', '--format', 'csv'], ['diag'], ['diag', '--format', 'json'], ['inspect', '@DATA'],
     ['init'], ['init'], ['workflow'], ['reference'], ['reference', 'views'],
+    # the same commands run from SOMEWHERE ELSE with the config directory given explicitly: nothing may appear in that other directory either
+    ['up', '-q', '@CONFIG'], ['up', '--format', 'summary', '@CONFIG'], ['up', '-q', '--format', 'json', '@CONFIG'], ['discover', '@CONFIG'], ['diag', '@CONFIG'], ['explain', 'Netflix', '@CONFIG'],
+    ['up', '--migrate', '-q', '@CONFIG'],
     ['run', '-q', '--format', 'json'], ['run', '--migrate', '-q'], ['explain', '--view', 'Subs'], ['up', '-q', '--only', 'subs'], ['up', '-vv', '--format', 'summary'],
 ]
 
@@ -194,11 +197,23 @@ def step(folder, cmd, case):
     if any('@OUT' in a for a in cmd):
         os.makedirs(os.path.join(base, 'output'), exist_ok=True)
     before = folder.bd.snapshot()
-    if any('@OUT' in a for a in cmd):
-        before = folder.bd.snapshot()
-    r = cli.run(argv, cwd=folder.bd.root)
+    cwd = folder.bd.root
+    elsewhere = None
+    if any('@CONFIG' in a for a in cmd):
+        import tempfile
+        elsewhere = tempfile.mkdtemp(prefix='c20_elsewhere_', dir=obs.tmpdir())
+        cwd = elsewhere
+        argv = [a.replace('@CONFIG', os.path.join(base, 'config')) for a in argv]
+    r = cli.run(argv, cwd=cwd)
     after = folder.bd.snapshot()
     judge(cmd, before, after, folder, case)
+    if elsewhere is not None:
+        left = sorted(os.path.join(d, n)[len(elsewhere) + 1:] for d, _, fs in os.walk(elsewhere) for n in fs)
+        dirs = sorted(os.path.join(d, n)[len(elsewhere) + 1:] for d, ds, _ in os.walk(elsewhere) for n in ds)
+        if left or dirs:
+            raise Violation(f"tally {' '.join(cmd)} run from another directory created {left + dirs} there\nfolder shape: {folder.shape}", case, 'wrote-into-cwd')
+        import shutil
+        shutil.rmtree(elsewhere, ignore_errors=True)
     return r
 
 
